@@ -388,6 +388,9 @@ fn op_order(line: &str, args: &[SExp]) -> CaseResult {
         };
         req.attributes_mut().add(t, IppAttribute::new(&nm, v));
     }
+    let added_job_uri = adds.iter().any(|a| {
+        a.list().map(|l| l.len() == 4 && l[1].atom() == Some("01") && l[2].atom().and_then(unhex).map(|b| b == b"job-uri").unwrap_or(false)).unwrap_or(false)
+    });
     let bytes = {
         let mut b = req.to_bytes().to_vec();
         // any positive request-id is as good as another (shown as 1)
@@ -407,7 +410,8 @@ fn op_order(line: &str, args: &[SExp]) -> CaseResult {
             oracle = Some(format!("a {} request for a target printer: operation attribute #3 on the wire is `{}`, RFC 8011 requires printer-uri (order seen: {:?})", kind, names.get(2).cloned().unwrap_or_default(), &names[..names.len().min(6)]));
         } else if with_job_id
             && names.get(3).map(|s| s.as_str()) != Some("job-id")
-            && !(names.get(3).map(|s| s.as_str()) == Some("job-uri") && names.get(4).map(|s| s.as_str()) == Some("job-id"))
+            // (a job-uri that the case itself added to the operation group goes in between)
+            && !(added_job_uri && names.get(3).map(|s| s.as_str()) == Some("job-uri") && names.get(4).map(|s| s.as_str()) == Some("job-id"))
         {
             oracle = Some(format!("a {} request addressed by printer-uri + job-id: operation attribute #4 on the wire is `{}`, RFC 8011 requires job-id (order seen: {:?})", kind, names.get(3).cloned().unwrap_or_default(), &names[..names.len().min(6)]));
         }
